@@ -6,6 +6,8 @@ def plan(tier, seed):
     gs = []
     for w, nf in (('prep_filt_afb2d', 4), ('prep_filt_sfb2d', 4), ('prep_filt_afb2d', 2), ('prep_filt_sfb2d', 2)):
         gs.append(Group('%s[%d]' % (w, nf), G.g_prep, (w, nf), functions=[(LL, w)]))
+        gs.append(Group('%s[%d,(L,1) column arrays]' % (w, nf), G.g_prep, (w, nf, 'col'), functions=[(LL, w)],
+                        replay=rp('dwt_forward' if 'afb' in w else 'dwt_inverse', dim=2, mode='zero', waveform='tuple4col')))
     for m in MODES:
         gs.append(Group('AFB2D.forward[%s]' % m, G.g_AFB2D_fwd, (m,), functions=[(LL, 'AFB2D.forward')]))
         gs.append(Group('SFB2D.forward[%s]' % m, G.g_SFB2D_fwd, (m,), functions=[(LL, 'SFB2D.forward')]))
@@ -27,6 +29,10 @@ def plan(tier, seed):
                      'grid': {'H': [4, 7], 'W': [5, 8], 'Lc2': [1, 3], 'Lr2': [2, 4], 'J': [1, 2]}})
         jobs.append({'fn': 'dwt_inverse', 'cfg': {'dim': 2, 'mode': m, 'waveform': 'tuple4'},
                      'grid': {'H': [4, 7], 'W': [5, 8], 'Lc2': [1, 3], 'Lr2': [2, 4], 'J': [1, 2]}})
+    # the same four filters handed over as (L, 1) column arrays
+    for m_ in ('zero', 'periodization'):
+        jobs.append({'fn': 'dwt_forward', 'cfg': {'dim': 2, 'mode': m_, 'waveform': 'tuple4col'}, 'grid': {'H': [8, 11], 'W': [6, 9], 'Lc2': [2, 3], 'Lr2': [1], 'J': [1, 2]}})
+        jobs.append({'fn': 'dwt_inverse', 'cfg': {'dim': 2, 'mode': m_, 'waveform': 'tuple4col'}, 'grid': {'H': [8, 11], 'W': [6, 9], 'Lc2': [2, 3], 'Lr2': [1], 'J': [1, 2]}})
     return {
         'groups': gs,
         'native': [('oracle_dwt.py', [seed], 'oracle: spec functions vs pywt.dwt/idwt'),
